@@ -1,3 +1,4 @@
+import Secp.Proofs.ReduceN
 import Secp.Proofs.ScalarCmp
 import Secp.Proofs.BytesLemmas
 /-!
